@@ -753,6 +753,9 @@ def gen_call(rng, family):
     if mapped and rng.random() < 0.04:
         m = rng.choice(mapped)
         mapped.append(["mape", m[1], next(next_id), gen_value(rng)])   # the same name in two mapping arguments
+    bad = colliding_names(funs)
+    mapped = [m for m in mapped if m[1] not in bad]
+    pykw = [kv for kv in pykw if kv[0] not in bad]
     # mapping expressions may stand anywhere among the positional arguments
     for m in mapped:
         if rng.random() < 0.8:
